@@ -1,0 +1,9 @@
+//go:build verif
+
+package raft
+
+// VerifNodeRawNode returns the RawNode that a Node created by StartNode or
+// RestartNode drives from its goroutine. The harness in /verif uses it only
+// while that goroutine is parked in its select (testing/synctest), to compare
+// the state behind the channel interface with a reference RawNode.
+func VerifNodeRawNode(n Node) *RawNode { return n.(*node).rn }
